@@ -633,4 +633,9 @@ func runConc(args []string) {
 	}
 	rearm(seed, rr, want, enc)
 	pubsubConc(seed, rounds, want, enc)
+	bv := rounds
+	if bv > 3 && os.Getenv("VERIF_TIER") != "thorough" {
+		bv = 3
+	}
+	bigValue(seed, bv, want, enc)
 }
